@@ -252,6 +252,34 @@ func DotDotWithArg(res string, spans []Span) bool { return dotDot(res, spans, fa
 // dot-dot segment depends on the argument alone.
 func DotDotTouchingArg(res string, spans []Span) bool { return dotDot(res, spans, true) }
 
+// DotDotSplitByArg is DotDotWithArg for template values: an empty span also counts if it lies
+// strictly inside the segment, i.e. the static text has dots on both sides of the datum
+// (`/a/.{{.X}}./`), but not if it merely follows or precedes a ".." the author wrote.
+func DotDotSplitByArg(res string, spans []Span) bool {
+	if dotDot(res, spans, false) {
+		return true
+	}
+	end := len(res)
+	if i := strings.IndexAny(res, "?#"); i >= 0 {
+		end = i
+	}
+	for st := 0; st <= end; {
+		e := st
+		for e < end && res[e] != '/' {
+			e++
+		}
+		if IsDotDot(res[st:e]) {
+			for _, sp := range spans {
+				if sp.A == sp.B && sp.A > st && sp.A < e {
+					return true
+				}
+			}
+		}
+		st = e + 1
+	}
+	return false
+}
+
 func dotDot(res string, spans []Span, empty bool) bool {
 	end := len(res)
 	if i := strings.IndexAny(res, "?#"); i >= 0 {
